@@ -632,6 +632,12 @@ pub fn run_c13(tier: &str, report: &mut Report) {
 }
 
 pub fn run_c06_http(report: &mut Report) {
+    run_streaming(report, "C06");
+}
+
+/// The streaming routes (head-follow, cat-follow): the same cases serve C06 (isolation) and C13
+/// (the route filters by context exactly like the store operation it fronts).
+pub fn run_streaming(report: &mut Report, prop: &str) {
     let cases = crate::c06::cases();
     let results = common::pool_map("c06", &[], common::ncpu(), cases.clone());
     let mut outcomes: HashSet<String> = HashSet::new();
@@ -644,7 +650,7 @@ pub fn run_c06_http(report: &mut Report) {
         for f in r["findings"].as_array().cloned().unwrap_or_default() {
             let kind = f["kind"].as_str().unwrap_or("?");
             report.add_violation(Violation {
-                property: "C06".into(),
+                property: prop.to_string(),
                 signature: format!("E4:{}:{}", kind, c["route"].as_str().unwrap_or("")),
                 message: f["msg"].as_str().unwrap_or("").to_string(),
                 replay: json!({"engine": "c06", "case": c}),
